@@ -287,3 +287,132 @@ func CsRunParallel(n, par int, job func(i int)) {
 	}
 	wg.Wait()
 }
+
+// ---------- decoded dumps and interned keys (keeps the Coq case files small) ----------
+
+// CsIntern maps known byte strings (the key pool) to Coq identifiers defined in the shard header.
+type CsIntern struct {
+	names map[string]string
+	defs  []string
+}
+
+func CsNewIntern(pool []string) *CsIntern {
+	t := &CsIntern{names: map[string]string{}}
+	for i, k := range pool {
+		n := fmt.Sprintf("key%d", i)
+		t.names[k] = n
+		t.defs = append(t.defs, fmt.Sprintf("Definition %s : list N := %s.", n, Str(k)))
+	}
+	return t
+}
+
+// B renders a byte string: its identifier when interned, a literal otherwise.
+func (t *CsIntern) B(b []byte) string {
+	if n, ok := t.names[string(b)]; ok {
+		return n
+	}
+	return Bytes(b)
+}
+
+func (t *CsIntern) Header() string {
+	s := "Open Scope N_scope.\n"
+	for _, d := range t.defs {
+		s += d + "\n"
+	}
+	return s
+}
+
+// CsRec is one decoded record (decoded with the real coder).
+type CsRec struct {
+	Idx bool
+	K   []byte
+	Rev uint64
+	Del bool
+	V   []byte
+}
+
+func (r CsRec) Coq(t *CsIntern) string {
+	if r.Idx {
+		return App("RIdx", t.B(r.K), N(r.Rev), Bool(r.Del))
+	}
+	if string(r.V) == "tombstone" {
+		return App("RVer", t.B(r.K), N(r.Rev), "tombstone")
+	}
+	return App("RVer", t.B(r.K), N(r.Rev), Bytes(r.V))
+}
+
+func (r CsRec) Slot() string { return fmt.Sprintf("%s\x00%d", r.K, map[bool]uint64{true: 0, false: r.Rev}[r.Idx]) }
+func (r CsRec) Same(o CsRec) bool {
+	return r.Idx == o.Idx && string(r.K) == string(o.K) && r.Rev == o.Rev && r.Del == o.Del && string(r.V) == string(o.V)
+}
+
+// CsDecodeDump decodes a raw dump with coder.Decode / coder.ParseRevision.
+func CsDecodeDump(d []KV) ([]CsRec, error) {
+	cd := coder.NewNormalCoder()
+	out := make([]CsRec, 0, len(d))
+	for _, e := range d {
+		uk, rev, err := csDecode(cd, e.K)
+		if err != nil {
+			return nil, fmt.Errorf("undecodable internal key %x", e.K)
+		}
+		if rev == 0 {
+			r, del, perr := coder.ParseRevision(e.V)
+			if perr != nil || (del && e.V[8] != 0) {
+				return nil, fmt.Errorf("malformed index record %x -> %x", e.K, e.V)
+			}
+			out = append(out, CsRec{Idx: true, K: uk, Rev: r, Del: del})
+		} else {
+			out = append(out, CsRec{K: uk, Rev: rev, V: append([]byte{}, e.V...)})
+		}
+	}
+	return out, nil
+}
+
+func CsRecsCoq(rs []CsRec, t *CsIntern) string {
+	xs := make([]string, len(rs))
+	for i, r := range rs {
+		xs[i] = r.Coq(t)
+	}
+	return List(xs)
+}
+
+// CsDiff renders `now` relative to `base`: removed positions of base, added records.
+func CsDiff(base, now []CsRec, t *CsIntern) (string, []int) {
+	var rm []string
+	var rmi []int
+	for i, b := range base {
+		found := false
+		for _, n := range now {
+			if b.Same(n) {
+				found = true
+				break
+			}
+		}
+		if !found {
+			rm = append(rm, N(uint64(i)))
+			rmi = append(rmi, i)
+		}
+	}
+	var added []CsRec
+	for _, n := range now {
+		found := false
+		for _, b := range base {
+			if b.Same(n) {
+				found = true
+				break
+			}
+		}
+		if !found {
+			added = append(added, n)
+		}
+	}
+	return Pair(List(rm), CsRecsCoq(added, t)), rmi
+}
+
+func CsKvrCoqI(l []KVR, t *CsIntern) string {
+	xs := make([]string, len(l))
+	for i, e := range l {
+		xs[i] = "(" + t.B(e.K) + ", " + Bytes(e.V) + ", " + N(e.Rev) + ")"
+	}
+	return List(xs)
+}
